@@ -976,3 +976,152 @@ Proof.
 Qed.
 End Desc.
 
+
+(* ---------- the chord matches its own binding under every encoding ---------- *)
+Section OwnString.
+Variable u : uni.
+Hypothesis Hlow : lower_hyp u.
+Hypothesis Hfold : fold_hyp u.
+
+(* MatchString of a printed binding: for every event k and every printed key k0 in scope *)
+Lemma string_binding_parse k0 k : sm_scope k0 = true ->
+  match_string u k (key_string u k0) = matches u k (k_code k0) (k_mods k0).
+Proof.
+  unfold sm_scope. intros H.
+  apply andb_true_iff in H as [H Hcode]. apply andb_true_iff in H as [H Hm].
+  apply andb_true_iff in H as [Hev Hcaps]. apply negb_true_iff in Hev, Hcaps.
+  assert (Hm' : 0 <= k_mods k0 <= 255) by (unfold in_range in Hm; lia).
+  assert (Hfin : forall body, noplus body = true -> body <> [] -> name_target u body = k_code k0 ->
+                 match_string u k (mods_prefix k0 ++ body) = matches u k (k_code k0) (k_mods k0)).
+  { intros body Hn Hne Ht. rewrite (mods_prefix_b k0 Hev), (match_string_printed_b u Hlow) by assumption.
+    rewrite Ht, !matches_core_eq, (mask_b_strip _ Hm' Hcaps). reflexivity. }
+  apply orb_true_iff in Hcode as [Hr|Hn].
+  - repeat (apply andb_true_iff in Hr; destruct Hr as [Hr ?H]).
+    apply negb_true_iff in H, H0. apply Z.eqb_neq in H, H0.
+    assert (Hc : 33 <= k_code k0 <= MaxRune) by (unfold in_range in Hr; lia).
+    assert (Hname : key_name (k_code k0) = []).
+    { destruct (key_name (k_code k0)) eqn:E; [reflexivity|].
+      destruct (key_name_facts (k_code k0)) as (_ & _ & _ & Hk); [rewrite E; discriminate|].
+      destruct Hk as [Hk|Hk]; [lia|]. cbn in Hk. lia. }
+    unfold key_string.
+    change KeyTab with 9. change KeySpace with 32. change KeyEsc with 27. change KeyBackspace with 127. change KeyEnter with 13.
+    replace ((k_code k0 =? 9) || (k_code k0 =? 32) || (k_code k0 =? 27) || (k_code k0 =? 127) || (k_code k0 =? 13)) with false by lia.
+    replace (k_code k0 =? 8) with false by lia. replace (k_code k0 <? 0) with false by lia.
+    replace (k_code k0 <? 32) with false by lia. replace (k_code k0 <=? MaxRune) with true by lia.
+    rewrite Hcaps, Hname, app_nil_r. unfold rune_fix. rewrite H1.
+    apply Hfin; [cbn; now rewrite (proj2 (Z.eqb_neq _ _) H0)|discriminate|reflexivity].
+  - apply andb_true_iff in Hn as [Hne Hu]. apply negb_true_iff in Hne.
+    assert (Hne' : key_name (k_code k0) <> []) by (intros E; rewrite E in Hne; discriminate).
+    destruct (key_name_facts _ Hne') as (Ha & Hnp & Hlen & Hk).
+    assert (Hstr : key_string u k0 = mods_prefix k0 ++ key_name (k_code k0)).
+    { unfold key_string.
+      change KeyTab with 9. change KeySpace with 32. change KeyEsc with 27. change KeyBackspace with 127. change KeyEnter with 13.
+      destruct Hk as [Hk|Hk].
+      - unfold MaxRune in Hk.
+        replace ((k_code k0 =? 9) || (k_code k0 =? 32) || (k_code k0 =? 27) || (k_code k0 =? 127) || (k_code k0 =? 13)) with false by lia.
+        replace (k_code k0 =? 8) with false by lia. replace (k_code k0 <? 0) with false by lia.
+        replace (k_code k0 <? 32) with false by lia. replace (k_code k0 <=? MaxRune) with false by (unfold MaxRune; lia).
+        reflexivity.
+      - replace ((k_code k0 =? 9) || (k_code k0 =? 32) || (k_code k0 =? 27) || (k_code k0 =? 127) || (k_code k0 =? 13)) with true by (cbn in Hk; lia).
+        reflexivity. }
+    rewrite Hstr. apply Hfin; [exact Hnp|exact Hne'|].
+    rewrite (name_target_long u _ Hlen).
+    assert (Hfind : find (fun kn => equal_fold u (snd kn) (key_name (k_code k0))) keyNames
+                  = find (fun kn => equal_fold ascii_uni (snd kn) (key_name (k_code k0))) keyNames).
+    { pose proof keyNames_facts as F. rewrite forallb_forall in F.
+      clear -F Ha Hfold. induction keyNames as [|kn l IH]; [reflexivity|]. cbn [find].
+      assert (Hkn : ascii_list (snd kn) = true).
+      { specialize (F kn (or_introl eq_refl)). repeat (apply andb_true_iff in F; destruct F as [F ?H]). exact F. }
+      rewrite (equal_fold_ascii u Hfold _ _ Hkn Ha). destruct (equal_fold ascii_uni (snd kn) (key_name (k_code k0))); [reflexivity|].
+      apply IH. intros x Hx. apply F. now right. }
+    rewrite Hfind. unfold name_unique in Hu.
+    destruct (find (fun kn => equal_fold ascii_uni (snd kn) (key_name (k_code k0))) keyNames) as [kn|]; [|discriminate].
+    now apply Z.eqb_eq.
+Qed.
+End OwnString.
+
+Lemma rule1_matches k r mods : rule1 k r mods = true -> forall u, matches u k r mods = true.
+Proof. unfold rule1, matches. intros H u. cbv zeta. rewrite H. reflexivity. Qed.
+
+Lemma own_all_ok_true : forallb own_chord_ok desc_chords = true.
+Proof. vm_compute. reflexivity. Qed.
+
+Lemma own_scope_true :
+  forallb (fun c => (ch_code c =? 43) || sm_scope (chord_key c)) desc_chords = true.
+Proof. vm_compute. reflexivity. Qed.
+
+Local Opaque desc_chords.
+
+Section Own.
+Variable u : uni.
+Hypothesis Hascii : ascii_like u.
+
+Lemma own_binding_matches c s :
+  desc_chord c = true -> In s (all_encs c) -> guard_esc_upper_seq c s = false ->
+  matches u (decode_key u s) (ch_code c) (ch_mods c) = true.
+Proof.
+  intros Hc Hs Hg. apply desc_chord_in in Hc.
+  pose proof (proj1 (forallb_forall own_chord_ok desc_chords) own_all_ok_true c Hc) as H1.
+  unfold own_chord_ok in H1.
+  pose proof (proj1 (forallb_forall _ _) H1 s Hs) as H2.
+  unfold own_enc_ok in H2. rewrite Hg in H2. cbn [orb] in H2.
+  apply andb_true_iff in H2 as [Hd He].
+  rewrite (decode_ext u Hascii s Hd). now apply rule1_matches.
+Qed.
+
+Hypothesis Hlow : lower_hyp u.
+Hypothesis Hfold : fold_hyp u.
+
+Lemma own_binding_string c s :
+  desc_chord c = true -> In s (all_encs c) -> guard_esc_upper_seq c s = false ->
+  guard_plus_binding c = false ->
+  match_string u (decode_key u s) (key_string u (decode_key u s)) = true.
+Proof.
+  intros Hc Hs Hg Hp.
+  rewrite (description_of_encoding u Hascii c s Hc Hs Hg).
+  pose proof (own_binding_matches c s Hc Hs Hg) as Hm.
+  pose proof (proj1 (forallb_forall _ desc_chords) own_scope_true c (desc_chord_in c Hc)) as Hsc.
+  cbv beta in Hsc. apply orb_true_iff in Hsc as [H43|Hsc].
+  - (* the bare '+' key: String() is "+", a single rune *)
+    unfold guard_plus_binding in Hp. rewrite H43 in Hp. cbn [andb] in Hp. apply negb_false_iff in Hp.
+    apply Z.eqb_eq in H43, Hp. destruct c as [k m]. cbn [ch_code ch_mods] in *. subst k m.
+    exact Hm.
+  - rewrite (string_binding_parse u Hlow Hfold _ _ Hsc). exact Hm.
+Qed.
+
+Lemma own_obs_ok_model c s :
+  desc_chord c = true -> In s (all_encs c) ->
+  own_obs_ok c s (matches u (decode_key u s) (ch_code c) (ch_mods c))
+                 (match_string u (decode_key u s) (key_string u (decode_key u s))) = true.
+Proof.
+  intros Hc Hs. unfold own_obs_ok.
+  destruct (guard_esc_upper_seq c s) eqn:G; [reflexivity|]. cbn [orb].
+  rewrite (own_binding_matches c s Hc Hs G). cbn [andb].
+  destruct (guard_plus_binding c) eqn:P; [reflexivity|]. cbn [orb].
+  exact (own_binding_string c s Hc Hs G P).
+Qed.
+
+(* the instance the fix bc2c33a makes true: Backspace with any modifiers under every encoding *)
+Lemma backspace_own_binding m s : 0 <= m <= 63 -> In s (all_encs (mkChord KeyBackspace m)) ->
+  matches u (decode_key u s) KeyBackspace m = true /\
+  match_string u (decode_key u s) (key_string u (decode_key u s)) = true.
+Proof.
+  intros Hm Hs.
+  assert (Hc : desc_chord (mkChord KeyBackspace m) = true).
+  { unfold desc_chord. cbn [ch_code ch_mods]. unfold in_range. change (special4 KeyBackspace) with true. rewrite orb_true_r. lia. }
+  split.
+  - exact (own_binding_matches _ s Hc Hs eq_refl).
+  - exact (own_binding_string _ s Hc Hs eq_refl eq_refl).
+Qed.
+End Own.
+
+(* before the fix the theorem was false *)
+Lemma own_binding_unfixed_refuted :
+  let c := mkChord KeyBackspace 4 in let s := SCSI [] [[27]; [5]; [8]] 126 in
+  desc_chord c = true /\ existsb (kseq_eqb s) (all_encs c) = true /\ guard_esc_upper_seq c s = false /\
+  guard_plus_binding c = false /\
+  k_code (decode_key_unfixed ascii_uni s) = 8 /\
+  matches ascii_uni (decode_key_unfixed ascii_uni s) KeyBackspace 4 = false /\
+  match_string ascii_uni (decode_key_unfixed ascii_uni s) (key_string ascii_uni (decode_key_unfixed ascii_uni s)) = false /\
+  matches ascii_uni (decode_key ascii_uni s) KeyBackspace 4 = true.
+Proof. vm_compute. repeat split; reflexivity. Qed.
